@@ -65,6 +65,45 @@ PROPS = {
         "trusted_base": COMMON_TRUST + COUNTER_TRUST,
         "assumptions": ["files without an ignore-file directive (inserting a line shifts the 10-line scan window)"],
     },
+    "C09": {
+        "modules": ["SlocModel.Props.C09"],
+        "required_theorems": ["unrecorded_stays_failed", "non_masking", "update_all_records", "new_mode_superset",
+                              "partial_modes_keep_other_kind", "round_trip_fresh", "round_trip_exit", "c09_new_mode_without_flag_drops"],
+        "technique": "Lean 4 theorems over a model of the baseline pipeline (apply / ratchet / update / exit) for all result lists, baselines and flag sets + differential correspondence on histories driven through the real binary",
+        "level_text": "Machine-checked for every result list, baseline file and flag combination: a failed result whose path the loaded baseline does not record stays failed and forces exit 1 unless --warn-only (non-masking); an `all` update records every violating (failed or grandfathered) line-, file- and subdirectory-count result, so a baseline check of the unchanged state grandfathers them and exits 0 unless another kind of violation or a warning-as-error remains, and updating again is idempotent; `new` never drops a loaded entry; content / structure modes keep the loaded entries of the other kind. The model is compared with the real binary on 240 (12k thorough) steps of edit/update/check histories with random flag sets, thread counts and ratchet modes. Two defects found by this check were repaired (fix: commits aa9e349, bccd8a3); one remains as a known finding (`new` without --baseline).",
+        "level_note": "Trusted: Lean kernel + standard axioms; harness (raw results of each project state come from a plain full `check` of the same binary); serde_json; path spelling is normalised in the harness (C08's subject).",
+        "trivial_tag_prefixes": ["C09/plain"],
+        "rule": "histories of 8 steps on a 5-file / 4-directory project (content limit 5, structure limits 2 files / 1 dir, a scoped rule with a deny list): each step edits the project (grow, shrink, create, delete, add a denied file) and runs `check` with a random flag set: --baseline given or not, --update-baseline in {all, content, structure, new}, --ratchet in {warn, auto, strict} by flag or [baseline] config, --warn-only, warnings-as-errors, 1-16 threads; distinct = distinct request lines; trivial = no baseline flag at all",
+        "explanation": "non_masking / round_trip / update theorems + driver op `baseline-step` predicting statuses, exit code and the baseline file after each real `check` run + direct predicates on the observed behaviour",
+        "trusted_base": COMMON_TRUST + ["serde_json (de)serialisation of the baseline file and SHA-256 content hashes are parameters", "rayon's order-preserving collect; the processed set of a fail-fast run is observed from the output"],
+        "assumptions": ["baseline keys and result paths are compared after stripping a leading ./ (spelling is C08)"],
+    },
+    "C10": {
+        "modules": ["SlocModel.Props.C10"],
+        "required_theorems": ["stale_sound", "unevaluated_never_stale", "violating_never_stale", "strict_needs_real_stale",
+                              "ratchet_subset", "warn_strict_no_write", "stale_of_filtered", "auto_then_clean"],
+        "technique": "Lean 4 theorems over the ratchet model for all baselines, result lists, evaluated sets and modes + differential correspondence on histories with restricted runs",
+        "level_text": "Machine-checked for every baseline, result list, evaluated set and mode: an entry is stale only if its path was evaluated in this run and no result at that path still violates (failed or grandfathered); unevaluated or still-violating entries are never reported, never removed and never make strict fail; without --update-baseline the file afterwards has only entries of the file before, unchanged, and only auto writes; after an auto tightening a rerun on the same state finds nothing stale. Compared with the real binary on 240 (12k) history steps including --files subsets, fail-fast under 1-16 threads and ratchet by flag and by configuration. The defect found (ratchet over unevaluated paths) was repaired (fix: efa3468).",
+        "level_note": "Trusted: Lean kernel + standard axioms; harness; the evaluated set handed to the model is {paths with a result} plus the scanned directories, mirroring the repaired runner. --diff/--staged narrowing is covered by the theorem (any evaluated set) but the histories use --files and fail-fast.",
+        "trivial_tag_prefixes": ["C10/plain"],
+        "rule": "as C09, with a ratchet mode on every step, 1/3 of the steps restricted to 1-3 explicit files, 1/4 with fail-fast; after every auto step the same command is run again; distinct = distinct request lines",
+        "explanation": "stale_sound / ratchet_subset / auto_then_clean theorems + `baseline-step` correspondence + predicates (entry removed or reported => evaluated and not violating; subset; no rewrite; rerun clean)",
+        "trusted_base": COMMON_TRUST + ["serde_json (de)serialisation of the baseline file and SHA-256 content hashes are parameters", "rayon's order-preserving collect; the processed set of a fail-fast run is observed from the output"],
+        "assumptions": ["a deleted file is not evaluated, so its entry is (by the property's wording) left alone"],
+    },
+    "C11": {
+        "modules": ["SlocModel.Props.C11"],
+        "required_theorems": ["processed_all", "failure_independent_of_schedule", "no_ff_deterministic", "grandfathered_does_not_trigger",
+                              "exit_independent", "seq_admissible", "par_admissible"],
+        "technique": "Lean 4 theorems quantifying over every admissible processed set (hence every interleaving of any number of fail-fast workers) + differential correspondence under 1-16 threads and shuffled file orders",
+        "level_text": "Machine-checked: the set of files a fail-fast run processes is admissible (files are skipped only after a processed file that is an un-grandfathered failure) for every one-worker order (seq_admissible) and for every interleaving of any number of workers reading and setting the shared flag (par_admissible, by induction over the trace); for every admissible set the run contains an un-grandfathered failure iff the full run does, so the exit code is the same with and without fail-fast; without fail-fast the result list is the input list. A grandfathered failure never triggers. The defect found (grandfathered first failure -> exit 0) was repaired (fix: 075eb38). Compared with the real binary on 240 (12k) steps: each fail-fast run is re-run without fail-fast and the exit codes compared; the observed processed set must be admissible.",
+        "level_note": "Trusted: Lean kernel + standard axioms; harness; rayon's order-preserving collect; Relaxed atomics are modelled as a flag that can only be observed set after it was set (no out-of-thin-air values). Warnings-as-errors with fail-fast can legitimately differ (a skipped warning) — the theorem and the comparison are about failures, as the property states.",
+        "trivial_tag_prefixes": ["C11/plain"],
+        "rule": "as C09; 3/4 of the steps use fail-fast by flag or [check] config under 1/2/4/8/16 rayon threads, 1/3 of them with a shuffled explicit --files list (each order is a schedule under one worker); 1/4 of the steps refresh the baseline so that grandfathered failures are met first; distinct = distinct request lines",
+        "explanation": "failure_independent_of_schedule / par_admissible theorems + `baseline-step` correspondence on the observed processed set + exit code with vs without fail-fast",
+        "trusted_base": COMMON_TRUST + ["serde_json (de)serialisation of the baseline file and SHA-256 content hashes are parameters", "rayon's order-preserving collect; the processed set of a fail-fast run is observed from the output"],
+        "assumptions": ["exit comparison ignores steps that also rewrite the baseline"],
+    },
     "C15": {
         "modules": ["SlocModel.Props.C15"],
         "required_theorems": ["retention_bounds", "age_saturates", "snapshot_appends_one", "never_rewrites", "new_entry_kept",
